@@ -279,9 +279,9 @@ class Gen:
         elif style < 0.3:
             dec = 'c' * n
         elif style < 0.45:
-            dec = ''.join(self.rng.choice('cC') for _ in range(n)) + self.rng.choice('bB')
+            dec = ''.join(self.rng.choice('cCdu') for _ in range(n)) + self.rng.choice('bBa')
         else:
-            alphabet = 'cccCCCbB' + ('p' if self.weights.get('fault') else '')
+            alphabet = 'cccCCCbBdau' + ('p' if self.weights.get('fault') else '')
             dec = ''.join(self.rng.choice(alphabet) for _ in range(n))
         obs = self.do(('iterd', q, dec))
         self.count_new_directs_from_visits(q, obs)
